@@ -225,11 +225,14 @@ func SpecMatch(pattern string, hasWild bool, s string) bool {
 //@ func Subscriber.Reaccess
 //@   trusted
 //@   assigns nothing
+// (getters of fields that never change after construction: Subscription.resourceName/-Query are immutable, checked)
 //@ func Subscriber.ResourceName
 //@   trusted
+//@   ensures result == recv.ResourceName()
 //@   assigns nothing
 //@ func Subscriber.ResourceQuery
 //@   trusted
+//@   ensures result == recv.ResourceQuery()
 //@   assigns nothing
 //@ func Subscriber.CID
 //@   trusted
@@ -273,6 +276,7 @@ func SpecMatch(pattern string, hasWild bool, s string) bool {
 //@   ensures[C09] result1 != nil && !old(has(c.eventSubs, name)) ==> has(c.eventSubs, name) && c.eventSubs[name].count == 0
 //@   ensures[C09] forall n string :: n != name ==> has(c.eventSubs, n) == old(has(c.eventSubs, n)) && c.eventSubs[n] == old(c.eventSubs[n])
 //@   ensures predCacheOK(c)
+//@   assert[C14] c.mq.Subscribe#1: arg0 == "event." + name
 //@   assigns elems(c.eventSubs), EventSubscription.count, EventSubscription.mqSub
 //@   safety[C15]
 
@@ -290,6 +294,8 @@ func SpecMatch(pattern string, hasWild bool, s string) bool {
 // releases exactly that use after the response callback has run.
 //@ func (*Cache).sendRequest
 //@   defers cb
+//@   assert[C14] c.getSubscription#1: arg0 == rname && !arg1
+//@   assert[C14] c.mq.SendRequest#1: arg0 == subj && arg1 == payload
 //@   requires predCacheOK(c) && c.mq != nil
 //@   resolves[C07] cb exactly-once
 //@   callback cb requires err != nil ==> reserr.predErrOK(err)
@@ -745,6 +751,8 @@ func SpecMatch(pattern string, hasWild bool, s string) bool {
 // (the verdict then carries the error), so a verdict is always well formed.
 //@ func (*Cache).Access
 //@   defers callback
+//@   assert[C14,C10] codec.CreateRequest#1: arg1 == sub && arg2 == sub.ResourceQuery() && arg3 == token && arg4 == isHTTP
+//@   assert[C14] c.sendRequest#1: arg0 == rname && arg1 == "access." + rname && rname == sub.ResourceName()
 //@   requires c != nil && sub != nil
 //@   assumes predCacheOK(c) && c.mq != nil
 //@   resolves[C07] callback exactly-once
@@ -757,6 +765,8 @@ func SpecMatch(pattern string, hasWild bool, s string) bool {
 
 //@ func (*Cache).CustomAuth
 //@   defers callback
+//@   assert[C14,C10] codec.CreateAuthRequest#1: arg0 == params && arg1 == req && arg2 == query && arg3 == token && !arg4
+//@   assert[C14] c.mq.SendRequest#1: arg0 == subj
 //@   requires c != nil && req != nil
 //@   assumes c.mq != nil
 //@   resolves[C07] callback exactly-once
@@ -768,6 +778,8 @@ func SpecMatch(pattern string, hasWild bool, s string) bool {
 
 //@ func (*Cache).Call
 //@   defers callback
+//@   assert[C14,C10] codec.CreateRequest#1: arg0 == params && arg1 == req && arg2 == query && arg3 == token && arg4 == isHTTP
+//@   assert[C14] c.sendRequest#1: arg0 == rname && arg1 == "call." + rname + "." + action
 //@   callback callback requires err != nil ==> reserr.predErrOK(err)
 //@   requires c != nil && req != nil
 //@   assumes predCacheOK(c) && c.mq != nil
@@ -780,6 +792,8 @@ func SpecMatch(pattern string, hasWild bool, s string) bool {
 
 //@ func (*Cache).Auth
 //@   defers callback
+//@   assert[C14,C10] codec.CreateAuthRequest#1: arg0 == params && arg1 == req && arg2 == query && arg3 == token && arg4 == isHTTP
+//@   assert[C14] c.sendRequest#1: arg0 == rname && arg1 == "auth." + rname + "." + action
 //@   callback callback requires err != nil ==> reserr.predErrOK(err)
 //@   requires c != nil && req != nil
 //@   assumes predCacheOK(c) && c.mq != nil
